@@ -665,6 +665,43 @@ func Run(c *vk.Ctx) {
 	}
 	k.end()
 
+	// (f) memory-map line grammar: every legacy parser's map section with one
+	// mapping line assembled from small menus (address ranges, permissions,
+	// offsets, object names incl. "(deleted)" markers and bracketed pseudo files)
+	k.begin("mapline")
+	{
+		names := []string{"", "(deleted)", " (deleted)", "/bin/x (deleted)", "(deleted) (deleted)", "[vdso]", "[", "]", "(", "//", " ", "a b", "./x", "x.so", "x.so.1 (deleted)", "[vdso] (deleted)", "/bin/prog", "\t", "-"}
+		perms := []string{"r-xp", "rw-p", "---p", "r-x", ""}
+		ranges := []string{"00400000-00500000", "0-0", "00500000-00400000", "ffffffffffffffff-0", "400000-500000"}
+		hdrs := []struct{ kind, pre string }{
+			{"heap", "heap profile: 1: 2 [1: 2] @ heapprofile\n1: 2 [1: 2] @ 0x401000\nMAPPED_LIBRARIES:\n"},
+			{"heap", "heap profile: 1: 2 [1: 2] @ heap_v2/1\n1: 2 [1: 2] @ 0x401000\n--- Memory map: ---\n"},
+			{"count", "goroutine profile: total 1\n1 @ 0x401001\n--- Memory map: ---\n"},
+			{"thread", "--- Thread 1 (name: a/1) stack: ---\n 0x401000\n--- Memory map: ---\n"},
+			{"contention", "--- contentionz 1 ---\nsampling period = 1\n1 1 @ 0x401000\n--- Memory map: ---\n"},
+		}
+		for _, h := range hdrs {
+			for _, rg := range ranges {
+				for _, pm := range perms {
+					for _, nm := range names {
+						if !k.next() {
+							continue
+						}
+						lines := []string{
+							rg + " " + pm + " 00000000 08:01 1234 " + nm + "\n", // /proc/maps style
+							"  " + rg + ": " + nm + "\n",                         // brief style
+							"  " + rg + ": " + nm + " (@0) abcdef\n",
+						}
+						for _, l := range lines {
+							k.check(h.kind, &Case{Phase: "mapline", Seed: h.kind + ":" + nm, data: []byte(h.pre + l)})
+						}
+					}
+				}
+			}
+		}
+	}
+	k.end()
+
 	// (d) concatenations
 	k.begin("concat")
 	for _, a := range seeds {
